@@ -112,7 +112,11 @@ func (o *Overlay) BuildTest(pkg, out string) error {
 	if err != nil {
 		return err
 	}
-	cmd := exec.Command("go", "test", "-c", "-vet=off", "-overlay="+ovPath, "-modfile="+mod, "-o", out, pkg)
+	args := []string{"test", "-c", "-vet=off", "-overlay=" + ovPath, "-modfile=" + mod, "-o", out}
+	if os.Getenv("VERIF_RACE") != "" {
+		args = append(args, "-race") // harness self-check: the simulated scheduler must be free of data races
+	}
+	cmd := exec.Command("go", append(args, pkg)...)
 	cmd.Dir = o.Repo
 	cmd.Env = append(os.Environ(), "GOFLAGS=-mod=mod", "GOPROXY=off", "GOSUMDB=off", "GOTOOLCHAIN=local", "GO111MODULE=on")
 	if b, err := cmd.CombinedOutput(); err != nil {
